@@ -33,17 +33,20 @@ ASSUMPTIONS = [
 TRUSTED = ["python struct.pack as the reference encoder of ints/floats (cross-checked in Coq against encode_file on every case)"]
 MANIFEST = dict(
     text="Machine-checked theorems (Coq 8.16.1) about an executable Gallina model of reamber's OJN reader on bytes "
-         "(header by the live layout table, package loop, float32 decode, hold buffer, measure->ms sweep).  Proved for all inputs: "
-         "read_meta on the laid-out header returns the header's values (300 bytes, live layout = reference layout); "
-         "little-endian int16/int32 decode inverts encode; binary32 decode lemmas (inf/nan rejected, zero, sign); the package parser "
-         "inverts the package layout; the reader's tempo sweep never fails and equals piecewise-linear integration of beat length over "
-         "header tempo + all tempo events (events after the last note and events exactly at a note's position included; strict vs "
-         "non-strict comparison proved immaterial); the oracle specb is sound for the declarative specification.  See docs/C07.md "
-         "for the exact list of composition lemmas proved and what remains evaluated case by case.  The model is tied to the code on "
-         "every run by in-Coq correspondence on generated OJN byte strings (equality with the repaired reader is demanded), and "
-         "the format oracle ojn_denote is evaluated on the implementation's output.",
-    note="The sweep of the tree before commits 9171148/d4c1412 is refuted with concrete witnesses kept in corpus/C07 (now fixed: a regression "
-         "raises a VIOLATION).  Trusted: Coq kernel+VM, generator/serialiser, struct.pack; binary64 rounding measured (1e-6 ms) not proved.",
+         "(header by the live layout table, package loop, float32 decode, hold buffer, measure->ms sweep).  Proved for ALL "
+         "well-formed files and any trailing bytes (C07_ojn_read_denotes / C07_ojn_read_meets_spec): the reader applied to the "
+         "laid-out bytes succeeds and returns what the file denotes under the format semantics (DESIGN B.5): header fields as "
+         "laid out, per difficulty the same taps and long notes (paired head to tail per column across packages) up to row order "
+         "and the same tempo rows, every time being the piecewise-linear integral of beat length over header tempo and all tempo "
+         "events (after the last note and exactly at a note included; <= vs < proved immaterial).  Parts proved separately: "
+         "header decoding inverts the 300-byte layout (live layout table = reference), package parser inverts the package layout, "
+         "little-endian and binary32 decode lemmas, one hold buffer = per-column pairing, sweep = integration, oracle soundness.  "
+         "The model is tied to the code on every run by in-Coq correspondence on generated OJN byte strings (equality with the "
+         "model is demanded) and the format oracle ojn_denote is evaluated on the implementation's output.",
+    note="The reader of the tree before commits 9171148/d4c1412 is refuted with concrete witnesses kept in corpus/C07 (fixed: a regression "
+         "raises a VIOLATION).  Trusted: Coq kernel+VM, generator/serialiser, struct.pack as reference encoder (cross-checked against the Coq "
+         "encoder on every case); binary64 rounding inside the reader measured (1e-6 ms; exact stream on powers of two) not proved; "
+         "the theorems are about the model, the code is tied to it by the per-run correspondence.",
     technique="Coq proof over executable byte-level model + vm_compute correspondence + reference-interpreter oracle",
     design="4/C07, B.5")
 
